@@ -16,7 +16,7 @@ from ..cfg import CFG, node_calls
 from ..partition import MiniInterp, Opaque, FRESH
 
 LEVEL = "other"
-TECHNIQUE = "CFG ordering of the document/prefix brackets; effect table of the token loop by branch partition; evaluated table checks"
+TECHNIQUE = ('CFG ordering of the document/prefix brackets; effect table of the token loop by branch partition; start-tag arm evaluated for attribute hand-over and qualified names; evaluated table checks')
 CLAIM = ('to_sax emits exactly one startDocument/endDocument pair around everything, opens every prefix '
          'mapping before the first token and closes the same mappings after the last; per token type the '
          'event(s) emitted are the right ones with the same (namespace, local name) on start and end. Nesting '
